@@ -116,6 +116,39 @@ fn num_op(op: &str, args: &[&str]) -> String {
     }
 }
 
+/// canonical, unambiguous printing of a datum (code points instead of escapes)
+fn canon(c: &Cell) -> String {
+    match c {
+        Cell::String(s) => format!("S[{}]", s.chars().map(|c| (c as u32).to_string()).collect::<Vec<_>>().join(",")),
+        Cell::Symbol(s) => format!("Y[{}]", s.chars().map(|c| (c as u32).to_string()).collect::<Vec<_>>().join(",")),
+        Cell::Char(c) => format!("C{}", *c as u32),
+        Cell::Number(Number::Fixnum(n)) => format!("I{}", n),
+        Cell::Number(n) => format!("M{}", show_num(n)),
+        Cell::Bool(b) => format!("B{}", *b as u8),
+        Cell::Nil => "N".into(),
+        Cell::Void => "V".into(),
+        Cell::Undefined => "U".into(),
+        Cell::Vector(v) => format!("#({})", v.iter().map(canon).collect::<Vec<_>>().join(" ")),
+        Cell::Pair(_, _) => {
+            let mut items = vec![];
+            let mut cur = c;
+            loop {
+                match cur {
+                    Cell::Pair(car, cdr) => {
+                        items.push(canon(car));
+                        cur = cdr;
+                    }
+                    Cell::Nil => return format!("({})", items.join(" ")),
+                    other => return format!("({} . {})", items.join(" "), canon(other)),
+                }
+            }
+        }
+        Cell::Procedure(_) => "P".into(),
+        Cell::Continuation => "K".into(),
+        Cell::Macro => "MACRO".into(),
+    }
+}
+
 fn token_name(t: &lex::TokenType) -> String {
     format!("{:?}", t)
 }
@@ -272,6 +305,29 @@ fn handle(vm: &mut Option<Vm>, line: &str) -> String {
             };
             let frames = v.last_stacktrace().map(|t| t.frames.len() as i64).unwrap_or(-1);
             format!("OK {} {} {}", rs, frames, hex(&state::dump_vm(&mut v)))
+        }
+        "evalc" => {
+            // like eval, canonical printing of the last result
+            let text = unhex_arg(parts[1]);
+            if vm.is_none() {
+                *vm = Some(Vm::new());
+            }
+            let vm = vm.as_mut().unwrap();
+            let mut rest: Option<&str> = Some(&text);
+            let mut last = String::from("NOTHING");
+            while let Some(t) = rest {
+                match vm.eval_text(t) {
+                    Ok((cell, r)) => {
+                        last = format!("OK {}", canon(&cell));
+                        rest = r;
+                    }
+                    Err(e) => {
+                        last = format!("ERR {} {}", hex(&format!("{:?}", e)), hex(&format!("{}", e)));
+                        break;
+                    }
+                }
+            }
+            last
         }
         other => format!("UNKNOWN {}", other),
     }
